@@ -970,19 +970,25 @@ Hnewref(int32 file_id /* IN: File ID the tag/refs are in */)
     /* if maxref of this file is still below the maximum,
      just return next number */
     if (file_rec->maxref < MAX_REF)
-        ret_value = ++(file_rec->maxref);
+        ret_value = file_rec->lastref = ++(file_rec->maxref);
     else { /* otherwise, search for an empty ref */
         /* incredibly slow but unlikely situation */
         /* This could possibly get replaced with some sort of bit-vector manipulation -QAK */
-        for (i_ref = 1; i_ref <= (uint32)MAX_REF; i_ref++) {
+        /* The search goes on behind the ref handed out last: a caller may hold a
+           ref for a while before it stores the object (the SD interface does),
+           and until then the descriptor list does not show that it is taken. */
+        uint32 start = file_rec->lastref;
+
+        for (i_ref = 0; i_ref < (uint32)MAX_REF; i_ref++) {
             dd_t *dd_ptr = NULL;
-            ref          = (uint16)i_ref;
+            ref          = (uint16)((start + i_ref) % (uint32)MAX_REF + 1);
             if (HTIfind_dd(file_rec, (uint16)DFTAG_WILDCARD, ref, &dd_ptr, DF_FORWARD) == FAIL) {
-                ret_value = ref; /* set return value to ref found */
-                break;           /* break out of loop */
-            }                    /* end if */
-        }                        /* end for */
-    }                            /* end else */
+                ret_value         = ref; /* set return value to ref found */
+                file_rec->lastref = ref;
+                break; /* break out of loop */
+            }          /* end if */
+        }              /* end for */
+    }                  /* end else */
 
 done:
     return ret_value;
